@@ -522,24 +522,23 @@ fn main() {
             // determinism audit: replay a deterministic subset (and every violation) and compare the full observation trace
             let choices = ch.choices();
             let h = vcore::fnv64(format!("{case:?}{choices:?}").as_bytes());
-            if verdict.is_err() || h % audit_every == 0 {
-                let mut ch2 = Chooser::new(choices.clone());
-                let again = vcore::catch(std::panic::AssertUnwindSafe(|| run_case(case, &mut ch2)));
-                let same = match &again {
-                    // a passing execution must replay with an identical observation trace; a violating one must violate again
-                    // with the same key (which caller is hit may legitimately depend on the driver's own hash order)
-                    Ok((v2, run2)) => {
-                        ch2.diverged.is_none()
-                            && match (&verdict, v2) {
-                                (Ok(()), Ok(())) => run2.trace == run.trace,
-                                (Err(a), Err(b)) => split_key(a).0 == split_key(b).0,
-                                _ => false,
-                            }
+            let mut verdict = verdict;
+            if ch.diverged.is_none() && (verdict.is_err() || h % audit_every == 0) {
+                let rerun = || -> Option<(Result<(), String>, Vec<String>)> {
+                    let mut ch2 = Chooser::new(choices.clone());
+                    match vcore::catch(std::panic::AssertUnwindSafe(|| run_case(case, &mut ch2))) {
+                        Ok((v2, run2)) if ch2.diverged.is_none() => Some((v2, run2.trace)),
+                        Ok(_) => Some((Ok(()), vec!["<choice sequence did not replay>".into()])),
+                        Err(_) => None,
                     }
-                    Err(_) => verdict.as_ref().err().map(|e| e.starts_with("panic|")).unwrap_or(false),
                 };
-                if !same {
-                    divergences.lock().unwrap().push(format!("case {:?} choices {:?}", case, choices));
+                match audit(&verdict, &run.trace, &rerun) {
+                    Audit::Stable => {}
+                    Audit::FlakyViolation { what, violating_runs, runs } => {
+                        r_ref.counters.add("violations_depending_on_unowned_randomness", 1);
+                        verdict = Err(format!("{what} (violates in {violating_runs} of {runs} runs of this choice sequence: the outcome depends on randomness inside the driver, e.g. hash order; replay may need several attempts)"));
+                    }
+                    Audit::Diverged(d) => divergences.lock().unwrap().push(format!("{d}; case {:?} choices {:?}", case, choices)),
                 }
                 r_ref.traces_validated.fetch_add(1, Ordering::Relaxed);
             }
